@@ -13,6 +13,7 @@
    arbitrary releases), acks, data, AOF.  The integrator proves `admissible` equal to the translator-generated doLock and
    connects this model to the engine model as a refinement (DESIGN §5 C01/C19). *)
 From Coq Require Import NArith List Bool.
+From Slock Require Import Gen.GenClient.
 Import ListNotations.
 Local Open Scope N_scope.
 
@@ -123,7 +124,20 @@ Definition holds_id (id : N) (s : kstate) : bool :=
   match find id s with Some _ => true | None => false end.
 
 (* ------------------------------------------------------------------ the newcomer test of LockDB.Lock (db.go:2023, 2163-2180)
-   locked, lockManager.waited, the request's wait-when-unlock flag, its priority flag, doCheckLockWaitPriority's answer *)
-Definition newcomer_admitted (lck : N) (mgr_waited wait_unlock prio_flag higher_than_waiting : bool) (cur req_count : N) : bool :=
-  let waited := if lck =? 0 then wait_unlock else mgr_waited in
+   arguments: locked, lockManager.waited, the request's wait-when-unlock flag, its priority flag, doCheckLockWaitPriority's
+   answer, "the live head of the wait queue is a plain waiter (no wait-when-unlock flag)", Count of the oldest hold, Count of
+   the request.  On a free key the code forces waited := false for a plain request; `lock_newcomer_checks_wait_queue`
+   (regenerated: does LockDB.Lock call GetWaitLock?) switches in the variant that keeps it true while plain waiters queue. *)
+Definition newcomer_admitted (lck : N) (mgr_waited wait_unlock prio_flag higher_than_waiting head_live_plain : bool)
+                             (cur req_count : N) : bool :=
+  let waited := if lck =? 0
+                then wait_unlock || (lock_newcomer_checks_wait_queue && mgr_waited && head_live_plain)
+                else mgr_waited in
   (negb waited || (prio_flag && higher_than_waiting)) && admissible lck cur req_count.
+
+(* ------------------------------------------------------------------ what a wake-up pass does with the head waiter r
+   (wakeUpWaitLocks: GetWaitLock, doLock, wakeUpWaitLock).  The pass does not look at the wait-when-unlock flag unless
+   the source mentions it there (`wake_pass_rechecks_wait_when_unlock`, regenerated). *)
+Definition wake_grant (s : kstate) (r : req) : bool :=
+  negb (wake_pass_rechecks_wait_when_unlock && (locked s =? 0) && r_wait_unlock r)
+  && admissible (locked s) (cur_count s) (r_count r).
